@@ -227,6 +227,19 @@ impl<C> Encode<C> for Ticket {
     }
 }
 
+/// A value whose `Encode` impl calls back into the library: it builds embedded CBOR (tag 24) by running `minicbor::to_vec` on its
+/// content while it is itself being encoded (re-entrancy on the calling thread).
+#[derive(Debug)]
+pub struct Nested(pub String);
+
+impl<C> Encode<C> for Nested {
+    fn encode<W: Write>(&self, e: &mut Encoder<W>, _: &mut C) -> Result<(), encode::Error<W::Error>> {
+        let inner = minicbor::to_vec(&self.0).map_err(|_| encode::Error::message("Nested: inner to_vec failed"))?;
+        e.tag(Tag::new(24))?.bytes(&inner)?;
+        Ok(())
+    }
+}
+
 /// A value whose `Encode` impl writes `partial` bytes and then fails with a message error.
 #[derive(Debug, Clone, PartialEq)]
 pub struct FailEncode {
@@ -263,7 +276,7 @@ tys!(
     VecVecU8, BTreeMapU32Str, Duration, IpAddr, SocketAddr, IntTy, TaggedU32, Tokens, Point, MapRec, Gappy, Color,
     Shape, Wrapper, Borrowed, Tree, TaggedRec, EncOps, BoxStr, CowStr, RangeU32, BoundI16, Wrapping, CString, Path, Empty,
     ArrIterExact, ArrIterFilter, MapIterExact, MapIterFilter, BTreeSetU16, VecDequeStr, LinkedListU8, BinaryHeapI32, HashMapFixed,
-    HashSetFixed, SystemTime, CellU16, RefCellStr, NonZeroU32, AtomicI64, TagTy, SocketAddrV6, RangeInclusiveI8, Phantom, Slice, SelfDesc, Embedded, Nothing, Ticket,
+    HashSetFixed, SystemTime, CellU16, RefCellStr, NonZeroU32, AtomicI64, TagTy, SocketAddrV6, RangeInclusiveI8, Phantom, Slice, SelfDesc, Embedded, Nothing, Ticket, Nested,
 );
 
 #[derive(Clone, Debug, PartialEq, Eq)]
@@ -805,12 +818,14 @@ pub fn with_value<V: EncVisitor>(spec: &ValSpec, vis: V) -> V::Out {
         // d9 d9 f7) and tag 24 (embedded CBOR); to the framing layer they are opaque bytes like any others
         Ty::SelfDesc => vis.visit(&Tagged::<55799, String>::from(gen_string(r, n))),
         Ty::Embedded => {
-            let inner = minicbor::to_vec(gen_string(r, n)).unwrap_or_default();
+            let mut inner = Vec::new();
+            let _ = minicbor::encode(gen_string(r, n), &mut inner);
             vis.visit(&Tagged::<24, ByteVec>::from(ByteVec::from(inner)))
         }
         // a value whose Encode impl writes nothing at all (zero-length encoding)
         Ty::Empty => vis.visit(&EncOps(Vec::new())),
         Ty::Nothing => vis.visit(&Nothing),
+        Ty::Nested => vis.visit(&Nested(gen_string(r, n))),
         Ty::Ticket => {
             // bases right below a head-width boundary, so that "the next number" is one byte longer
             let base = *r.pick(&[23u64, 23, 255, 65_535, 0xffff_ffff, 5]) + if n % 4 == 3 { 1 } else { 0 };
@@ -901,6 +916,21 @@ pub fn with_family<V: FamVisitor>(ty: Ty, vis: V) -> V::Out {
 
 /// `E(v)`: the unbounded reference encoding, `None` if the encoder itself refuses the value.
 pub fn reference_encoding(spec: &ValSpec) -> Option<Vec<u8>> {
+    struct V;
+    impl EncVisitor for V {
+        type Out = Option<Vec<u8>>;
+        fn visit<T: Encode<()> + Debug>(self, v: &T) -> Self::Out {
+            // a plain Vec sink through a fresh Encoder: deliberately NOT `minicbor::to_vec`, whose extra machinery (if a tree
+            // gives it any) is the business of C13's own to_vec clause and must not colour every other reference
+            let mut out = Vec::new();
+            minicbor::encode(v, &mut out).ok().map(|_| out)
+        }
+    }
+    with_value(spec, V)
+}
+
+/// `minicbor::to_vec` of the value (the convenience entry point itself).
+pub fn to_vec_of(spec: &ValSpec) -> Option<Vec<u8>> {
     struct V;
     impl EncVisitor for V {
         type Out = Option<Vec<u8>>;
